@@ -257,7 +257,59 @@ class IsinstanceMerge(ast.NodeTransformer):
         return isinstance(v, ast.Call) and isinstance(v.func, ast.Name) and v.func.id == "isinstance" and len(v.args) == 2 and not v.keywords
 
 
-TRANSFORMS = {"eqswap": EqSwap, "cmpflip": CmpFlip, "ifinvert": IfInvert, "notcmp": NotCmp, "augexpand": AugExpand, "annotate": Annotate, "fstring": FString, "methodorder": MethodOrder, "isimerge": IsinstanceMerge,
+class UnElse(ast.NodeTransformer):
+    """ruff RET505-508 / pylint R1705: `if c: ...; return x  else: REST`  ->  `if c: ...; return x` followed by REST
+    (also for raise / continue / break), applied to every block."""
+
+    @staticmethod
+    def _leaves(body):
+        return bool(body) and isinstance(body[-1], (ast.Return, ast.Raise, ast.Continue, ast.Break))
+
+    def _fix(self, stmts):
+        out = []
+        for st in stmts:
+            if isinstance(st, ast.If) and st.orelse and self._leaves(st.body):
+                rest = st.orelse
+                st.orelse = []
+                out.append(st)
+                out.extend(self._fix(rest))
+            else:
+                out.append(st)
+        return out
+
+    def generic_visit(self, node):
+        super().generic_visit(node)
+        for f in ("body", "orelse", "finalbody"):
+            b = getattr(node, f, None)
+            if isinstance(b, list) and b and isinstance(b[0], ast.stmt):
+                setattr(node, f, self._fix(b))
+        return node
+
+
+class ElseAfterReturn(ast.NodeTransformer):
+    """the inverse: `if c: ...; return x` followed by REST in the same block -> `if c: ...; return x else: REST`"""
+
+    def generic_visit(self, node):
+        super().generic_visit(node)
+        for f in ("body", "orelse", "finalbody"):
+            b = getattr(node, f, None)
+            if isinstance(b, list) and b and isinstance(b[0], ast.stmt):
+                setattr(node, f, self._fix(b))
+        return node
+
+    def _fix(self, stmts):
+        for i, st in enumerate(stmts):
+            if isinstance(st, ast.If) and not st.orelse and UnElse._leaves(st.body) and i + 1 < len(stmts) and not isinstance(
+                    node_parent_is_loop := None, int):
+                rest = stmts[i + 1:]
+                if any(isinstance(x, (ast.FunctionDef, ast.ClassDef)) for x in rest):
+                    continue
+                st.orelse = self._fix(rest)
+                return stmts[:i + 1]
+        return stmts
+
+
+TRANSFORMS = {"eqswap": EqSwap, "cmpflip": CmpFlip, "ifinvert": IfInvert, "notcmp": NotCmp, "augexpand": AugExpand, "annotate": Annotate, "fstring": FString, "methodorder": MethodOrder, "isimerge": IsinstanceMerge, "unelse": UnElse, "elseafter": ElseAfterReturn,
               "passpad": PassPad, "rename": Rename}
 
-SILENT_VARIANTS = ("eqswap", "cmpflip", "ifinvert", "notcmp", "augexpand", "passpad", "annotate", "fstring", "methodorder", "isimerge")
+SILENT_VARIANTS = ("eqswap", "cmpflip", "ifinvert", "notcmp", "augexpand", "passpad", "annotate", "fstring", "methodorder", "isimerge", "unelse", "elseafter")
